@@ -130,6 +130,74 @@ def conformance(world):
     return problems
 
 
+def id_inj_frame(world):
+    """Frame obligation behind the identity model (DESIGN 2.2, C03-O7, "ID-INJ"): in kernel/term.py the
+    attribute `_id` of an object is only ever set to id() of that same object.  Checked syntactically:
+      (a) every store to `<x>._id` has the form `<x>._id = id(<x>)`;
+      (b) a `<x>.__dict__.update(...)` / `<x>.__dict__ = ...` (which copies a foreign `_id`) is followed,
+          in the same function, by `<x>._id = id(<x>)`.
+    Returns a list of obligation dicts."""
+    mi = world.repo.module('kernel.term')
+    out = []
+    for fn in ast.walk(mi.tree):
+        if not isinstance(fn, ast.FunctionDef):
+            continue
+        resets = set()
+        for node in ast.walk(fn):
+            if isinstance(node, ast.Assign) and len(node.targets) == 1:
+                t = node.targets[0]
+                if isinstance(t, ast.Attribute) and t.attr == '_id' and isinstance(t.value, ast.Name):
+                    v = node.value
+                    ok = isinstance(v, ast.Call) and getattr(v.func, 'id', None) == 'id' and len(v.args) == 1 \
+                        and isinstance(v.args[0], ast.Name) and v.args[0].id == t.value.id
+                    out.append({'label': 'frame:_id-store:%s:line%d' % (fn.name, node.lineno),
+                                'status': 'proved' if ok else 'failed',
+                                'detail': ast.unparse(node)})
+                    if ok:
+                        resets.add((t.value.id, node.lineno))
+        for node in ast.walk(fn):
+            tgt = None
+            if isinstance(node, ast.Call) and isinstance(node.func, ast.Attribute) and node.func.attr == 'update' \
+                    and isinstance(node.func.value, ast.Attribute) and node.func.value.attr == '__dict__' \
+                    and isinstance(node.func.value.value, ast.Name):
+                tgt = node.func.value.value.id
+            if isinstance(node, ast.Assign) and any(isinstance(t, ast.Attribute) and t.attr == '__dict__'
+                                                    for t in node.targets):
+                tgt = [t.value.id for t in node.targets if isinstance(t, ast.Attribute) and
+                       isinstance(t.value, ast.Name)][0]
+            if tgt is not None:
+                ok = any(nm == tgt and ln > node.lineno for nm, ln in resets)
+                out.append({'label': 'frame:__dict__-copy:%s:line%d' % (fn.name, node.lineno),
+                            'status': 'proved' if ok else 'failed',
+                            'detail': ast.unparse(node) + ('' if ok else
+                                                          '  -- copies the source object\'s _id and never resets it'),
+                            'witness': 'models.holpy.id_collision_witness'})
+    if not out:
+        out.append({'label': 'frame:_id', 'status': 'failed', 'detail': 'no _id stores found (model out of date)'})
+    return out
+
+
+def id_collision_witness():
+    """Native witness for a violated ID-INJ: a parsed/copied term keeps the `_id` of a temporary that is
+    garbage collected; a later, different term allocated at the same address compares equal to it."""
+    import sys
+    if '/repo' not in sys.path:
+        sys.path.insert(0, '/repo')
+    from kernel.term import Term, Var
+    from kernel.type import TConst
+    boolT = TConst('bool')
+    for attempt in range(200):
+        x = Term(Var('a', boolT))          # copy of a temporary: the temporary dies here
+        ys = []
+        for i in range(50):
+            y = Var('b', boolT)
+            ys.append(y)
+            if y._id == x._id:
+                return {'confirmed': (x == y), 'detail': 'x = Term(Var("a", bool)); y = Var("b", bool) allocated '
+                        'later at the same address: x == y is %r although the names differ' % (x == y,)}
+    return {'confirmed': False, 'detail': 'no address reuse observed in 200 attempts'}
+
+
 def make_world(repo_root=None):
     w = World(repo_root)
     declare(w)
